@@ -1,0 +1,21 @@
+//go:build verif
+
+package core
+
+import (
+	"github.com/AliceO2Group/Control/core/environment"
+	"github.com/AliceO2Group/Control/core/task"
+)
+
+// NewRpcServerForVerif builds the global state and the RPC server object exactly like Run does
+// (newGlobalState + the RpcServer NewServer registers), without any gRPC transport.
+func NewRpcServerForVerif(shutdown func()) (*RpcServer, *task.Manager, *environment.Manager, error) {
+	state, err := newGlobalState(shutdown)
+	if err != nil {
+		return nil, nil, nil, err
+	}
+	return &RpcServer{
+		state:      state,
+		envStreams: newSafeStreamsMap(),
+	}, state.taskman, state.environments, nil
+}
